@@ -19,6 +19,8 @@ var (
 	PImm = model.PI("p")
 	PT1  = model.PT("p", model.T1)
 	PT2  = model.PT("p", model.T2)
+	// PT1Z is PT1 with its anchor written in another zone: the same predicate (joins on the anchor are joins on instants)
+	PT1Z = model.PT("p", model.T1.In(time.FixedZone("", 3*3600)))
 	QImm = model.PI("q")
 	QT2  = model.PT("q", model.T2)
 	PT3  = model.PT("p", model.T3)
